@@ -54,7 +54,7 @@ def motion(rng):
     if k == 6: return c + rng.pick([b"w", b"e", b"b", b"j", b"k", b"l", b"h"])
     if k == 7: return b"m" + rng.pick([b"a", b"b", b"z"])
     if k == 8: return c + rng.pick([b"\x04", b"\x15", b"\x06", b"\x02", b"\x05", b"\x19"])
-    return c + rng.pick([b"z\n", b"z.", b"z-", b"G", b"gg"[:1]])
+    return c + rng.pick([b"z\n", b"z.", b"z-", b"G", b"gz"])
 
 TEXTS = [b"abc", b"x y", b"", b" ", b"foo(bar)", "é中".encode(), b"one\ntwo", b"\tq", b"a\x08b", b"ab\x17c", b"zz\x15y", b"k.", b"1\n2\n3", b"  in",
          b"\x14t", b"\x04d", b"w\x16\x1bv", b"\n", b"q\n\n"]
